@@ -367,7 +367,9 @@ type c10Case struct {
 	Pos  string `json:"pos,omitempty"`
 	Len  string `json:"len,omitempty"`
 	X    string `json:"x,omitempty"`
-	Prog string `json:"awk,omitempty"` // equivalent one-liner, for humans
+	Prog string `json:"awk,omitempty"`  // equivalent one-liner, for humans
+	Fill int    `json:"fill,omitempty"` // regex: other regexes compiled first
+	Pre  int    `json:"pre,omitempty"`  // regex: first used by ~ (1), !~ (2), split (3)
 }
 
 func c10Q(s string) string   { return strconv.QuoteToASCII(s) }
@@ -532,6 +534,10 @@ BEGIN {
 	# fill > 0: that many other dynamic regexes are compiled first (regex cache full)
 	for (i = 0; i < fill; i++) zz += ("q" i) ~ ("^q" i "$")
 	r = R()
+	# pre > 0: the same regex text is first used by another consumer of regular expressions
+	if (pre == 1) zz += ("xaby" ~ r)
+	if (pre == 2) zz += ("xaby" !~ r)
+	if (pre == 3) zz += split("xaby", tmp, r)
 	while (nxs()) {
 		s = S()
 		m = match(s, r)
@@ -557,6 +563,8 @@ type c10Rx struct {
 	si    int
 	ri    int
 	stage string
+	fill  int
+	pre   int
 	// per subject
 	s        string
 	models   [][]c10Span // acceptable match lists (1 or 2)
@@ -567,6 +575,7 @@ type c10Rx struct {
 
 type c10Runner struct {
 	fill     int // regex program: number of other regexes compiled first
+	pre      int // regex program: the regex is first used by ~ (1), !~ (2), split (3)
 	funcs    map[string]any
 	flatProg *parser.Program
 	rxProg   *parser.Program
@@ -917,7 +926,7 @@ func c10ParsePat(pat string) ([]*c10Atom, bool) {
 }
 
 func (x *c10Rx) caseFor(repl string, all bool) c10Case {
-	cs := c10Case{Kind: "regex", Mode: c10ModeName(x.chars), S: c10Q(x.s), Pat: c10Q(x.pat), Repl: c10Q(repl), All: all}
+	cs := c10Case{Kind: "regex", Mode: c10ModeName(x.chars), S: c10Q(x.s), Pat: c10Q(x.pat), Repl: c10Q(repl), All: all, Fill: x.fill, Pre: x.pre}
 	flag := "goawk "
 	if x.chars {
 		flag = "goawk -c "
@@ -968,7 +977,11 @@ func (x *c10Rx) sigTail() string {
 	if x.emptyPat {
 		e = "1"
 	}
-	return " empty=" + e + " mode=" + c10ModeName(x.chars)
+	t := " empty=" + e + " mode=" + c10ModeName(x.chars)
+	if x.pre > 0 {
+		t += " after-other-regex-use"
+	}
+	return t
 }
 
 func (x *c10Rx) onMatch(m, rstart, rlength float64, sub string) {
@@ -1090,7 +1103,7 @@ func c10RegexUnit(c *core.Ctx, r *c10Runner, pat string, chars bool, subs, repls
 	if !ok {
 		panic("c10: pattern not in the atom grammar: " + pat)
 	}
-	x := &c10Rx{c: c, pat: pat, atoms: atoms, chars: chars, subs: subs, repls: repls, si: -1}
+	x := &c10Rx{c: c, pat: pat, atoms: atoms, chars: chars, subs: subs, repls: repls, si: -1, fill: r.fill, pre: r.pre}
 	_, _, x.emptyPat = c10Find(atoms, nil, 0)
 	if re, err := regexp.Compile("(?s:" + pat + ")"); err == nil {
 		re.Longest()
@@ -1100,7 +1113,7 @@ func c10RegexUnit(c *core.Ctx, r *c10Runner, pat string, chars bool, subs, repls
 	defer func() { r.rx = nil }()
 	c.Announce(map[string]any{"kind": "regex-batch", "pat": c10Q(pat), "mode": c10ModeName(chars)})
 	for x.si < len(subs)-1 {
-		res := awk.Exec(r.rxProg, &interp.Config{Funcs: r.funcs, Chars: chars, Vars: []string{"fill", strconv.Itoa(r.fill)}})
+		res := awk.Exec(r.rxProg, &interp.Config{Funcs: r.funcs, Chars: chars, Vars: []string{"fill", strconv.Itoa(r.fill), "pre", strconv.Itoa(r.pre)}})
 		if res.Panic == "" && res.Err == nil {
 			break
 		}
@@ -1289,6 +1302,27 @@ func c10Run(c *core.Ctx) {
 	}
 	r.fill = 0
 
+	// (5c) the same regex text first used by ~, !~ or split (for which the kind of
+	// match does not matter) and only then by match / sub / gsub
+	for pre := 1; pre <= 3; pre++ {
+		r.pre = pre
+		for _, pat := range pats {
+			if !strings.Contains(pat, "(a|ab)") && !(strings.Contains(pat, "|") && !strings.Contains(pat, "(")) {
+				continue
+			}
+			if c.Expired() {
+				break
+			}
+			if !c.Mine() {
+				continue
+			}
+			for _, chars := range c10BothModes {
+				c10RegexUnit(c, r, pat, chars, subjects, repls[:6])
+			}
+		}
+	}
+	r.pre = 0
+
 	// (6) thorough only: longer subjects (length 5) for the patterns of <=2 atoms
 	if c.Thorough() {
 		var long []string
@@ -1318,6 +1352,7 @@ func c10Replay(c *core.Ctx, raw json.RawMessage) {
 		if cs.All {
 			repls = c10Repls(3)
 		}
+		r.fill, r.pre = cs.Fill, cs.Pre
 		c10RegexUnit(c, r, unquoteGo(cs.Pat), cs.Mode == "chars", []string{unquoteGo(cs.S)}, repls)
 		return
 	}
@@ -1340,7 +1375,7 @@ func init() {
 		Rule: "bounded-exhaustive enumeration against an executable model: every string of length <=3 (thorough <=4) over {a,b,é,\\xff} x " +
 			"every position x every length from a fixed list of 44 numbers (fractions, negatives, 2^31, 2^53, 2^63-1024, 2^63, 2^64, 1e30, 1e308, +-inf, nan) for substr; " +
 			"78 arguments for int() (75 finite); every subject x every needle of length <=2 for index; every string of length <=4 (5) over {a,é,\\xff,sep} for 14 single-character separators for split; " +
-			"every regex of <=3 atoms from 13 atoms, and every top-level alternation X|Y of sequences of 1..2 atoms over {a b ^ $ a*} (900 patterns; these and the (a|ab) patterns also with 130 other regexes compiled first = regex cache full), x every subject x every replacement of <=3 tokens over {&,\\&,\\\\,x,\\} for match/sub/gsub (thorough: also subjects of length 5 for regexes of <=2 atoms); all in byte mode and character mode. " +
+			"every regex of <=3 atoms from 13 atoms, and every top-level alternation X|Y of sequences of 1..2 atoms over {a b ^ $ a*} (900 patterns; these and the (a|ab) patterns also with 130 other regexes compiled first = regex cache full, and with the same regex text first used by ~, !~ or split), x every subject x every replacement of <=3 tokens over {&,\\&,\\\\,x,\\} for match/sub/gsub (thorough: also subjects of length 5 for regexes of <=2 atoms); all in byte mode and character mode. " +
 			"A state is one argument tuple (mode, builtin, arguments); a transition is one builtin call on the real interpreter; distinct = distinct observed results",
 		Assumptions: []string{
 			"amd64 float-to-int conversion (out-of-range values become MinInt64); the model never relies on it",
